@@ -39,6 +39,7 @@ pub const TS_SNIPPETS: &[&str] = &[
   "const arr = [1, 2, 3].map((n) => n + 1);",
   "const tight = [1,2,3];",
   "console.log(console.log(1));",
+  "bar(1, 2);",
   "if ((a == b) == c) {\n  foo(foo(1, 2), 3);\n}",
 ];
 
@@ -62,6 +63,7 @@ pub const JS_SNIPPETS: &[&str] = &[
   "const arr = [1, 2, 3].map((n) => n + 1);",
   "const tight = [1,2,3];",
   "console.log(console.log(1));",
+  "bar(1, 2);",
   "if ((a == b) == c) {\n  foo(foo(1, 2), 3);\n}",
   "alert(123);",
 ];
